@@ -67,6 +67,11 @@ func kindSlice(fn *ssa.Function, recv ssa.Value, k int64) map[*ssa.BasicBlock]bo
 
 func evalKindCond(c ssa.Value, recv ssa.Value, k int64) (bool, bool) {
 	switch x := c.(type) {
+	case *ssa.Call:
+		// v.IsValid() is v.Kind() != Invalid (package reflect): decided by the kind
+		if f := x.Common().StaticCallee(); f != nil && funcFullName(f) == "(reflect.Value).IsValid" && len(x.Common().Args) == 1 && x.Common().Args[0] == recv {
+			return k != 0, true
+		}
 	case *ssa.UnOp:
 		if x.Op == token.NOT {
 			v, ok := evalKindCond(x.X, recv, k)
